@@ -3,6 +3,10 @@
 // can see private items.
 #![allow(dead_code, unused, non_upper_case_globals, non_snake_case, clippy::all)]
 
+#[cfg(kani)]
+#[macro_use]
+mod contract_macros;
+
 pub mod bitfield_unit {
     include!("/repo/bindgen/codegen/bitfield_unit.rs");
     #[cfg(kani)]
